@@ -255,6 +255,31 @@ def c18_6(ctx):
         wb = sym.walk(ctx, blob)
         ctx.check(any("'E'" in str(o) or "'E:'" in str(o) for e in wb.exits for o in (gi.f_opaques(e.cond) if e.cond not in (True, False) else [])), "electrum-prefix-read", ctx.where(blob),
                   "ParseAPI._electrum_to_blob no longer tests for the E: prefix the wallet writes")
+    # hierarchical keys: the text form of a node that holds a secret has to carry it, or it parses back to another object
+    for rel, cname in (("pycoin/key/BIP32Node.py", "BIP32Node"), ("pycoin/key/BIP49Node.py", "BIP49Node"), ("pycoin/key/BIP84Node.py", "BIP84Node")):
+        c = ctx.p.cls(rel, cname)
+        at = c.attrs.get("as_text")
+        target = None
+        if isinstance(at, ast.Name) and at.id in c.methods:
+            target = c.methods[at.id]               # as_text = hwif
+        elif "as_text" in c.methods:
+            target = c.methods["as_text"]
+        if target is None:
+            inherited = ctx.p.lookup_method(c, "as_text")
+            if inherited is None and ctx.p.lookup_class_attr(c, "as_text")[1] is None:
+                raise Undecided("%s has no as_text" % cname)
+            ctx.ok("hd-text-form-inherited:%s" % cname)
+            continue
+        a = target.node.args
+        pos = a.posonlyargs + a.args
+        dflt = dict(zip([x.arg for x in pos[len(pos) - len(a.defaults):]], a.defaults))
+        d = dflt.get("as_private")
+        public_by_default = isinstance(d, ast.Constant) and d.value is False
+        w = sym.walk(ctx, target)
+        private_aware = any("is_private" in str(o) or "secret_exponent" in str(o) for e in w.exits for o in (gi.f_opaques(e.cond) if e.cond not in (True, False) else []))
+        ctx.check(not public_by_default or private_aware, "hd-private-text-form:%s" % cname, "%s:%d" % (rel, target.node.lineno),
+                  "%s.as_text() of a node holding a secret is the PUBLIC text (as_text is %s with as_private=False): parse(t).as_text() parses back to a public-only node, not to an equal object" % (cname, target.name),
+                  sample={"class": cname, "as_text": target.name})
     from rules import C02
     C02.c02_7(ctx)
 
